@@ -73,3 +73,21 @@ Theorem C07_negative_length_rejected : forall B p s env n, binary_size s env = O
   parse_binary s env {| cdata := B; cpos := p |} = Err EValue.
 Proof. exact negative_length_rejected. Qed.
 Print Assumptions C07_negative_length_rejected.
+
+(* ---- the fuel of the codec loops and of the terminator search is not a restriction ---- *)
+From SPP Require Import Proofs.CodecFuelP.
+Theorem C07_decode_fuel_irrelevant : forall cs bs k,
+  match cs with
+  | Utf8 => utf8 (S (List.length bs) + k) bs = utf8 (S (List.length bs)) bs
+  | Utf16 (Some o) => units 2 (match o with MSB => true | LSB => false end) (S (List.length bs) + k) bs
+                      = units 2 (match o with MSB => true | LSB => false end) (S (List.length bs)) bs
+  | Utf32 (Some o) => units 4 (match o with MSB => true | LSB => false end) (S (List.length bs) + k) bs
+                      = units 4 (match o with MSB => true | LSB => false end) (S (List.length bs)) bs
+  | _ => True
+  end.
+Proof. exact decode_text_fuel_irrelevant. Qed.
+Print Assumptions C07_decode_fuel_irrelevant.
+Theorem C07_terminator_search_fuel_irrelevant : forall needle hay k,
+  find_sub (S (List.length hay) + k) needle hay 0 = bytes_index needle hay.
+Proof. exact bytes_index_fuel_irrelevant. Qed.
+Print Assumptions C07_terminator_search_fuel_irrelevant.
